@@ -127,6 +127,14 @@ def gen_models(ctx):
             else:
                 rx.append(hill_rxn(rng, rng.choice(HILL), j))
                 params.update({"k%d" % j: rng.choice(DYADIC), "K%d" % j: rng.choice(DYADIC), "n%d" % j: rng.choice(HILL_N)})
+        if rng.chance(1, 2):
+            # some reactions carry a delayed part (its products appear later: they are no inputs of the reaction)
+            for r_ in rx:
+                if rng.chance(1, 2):
+                    r_["dreactants"] = []
+                    r_["dproducts"] = [rng.choice(SPECIES) for _ in range(rng.randint(1, 2))]
+                    r_["delay"] = {"type": "fixed", "delay": "tau"}
+            params["tau"] = 0.5
         yield {"species": list(rng.choice(perms)), "reactions": rx, "params": params, "ic": {}}
 
 
